@@ -244,7 +244,16 @@ def eval_resources(sv: SpecView, c: Cand, f: Findings):
         for p in pts:
             n = len(set(tk for tk, lo, hi in ivs if lo <= p < hi))
             worst = max(worst, n)
-        f.add("C02", "cumulative_capacity", ["CumulativeWorker"], b3(worst <= cs["size"]), [cid, worst, cs["size"]])
+        st = b3(worst <= cs["size"])
+        if st == V:
+            # a zero-length use at an instant where every unit is busy: whether it needs a
+            # free unit is not documented
+            for tk, lo, hi in c.assign.get(cid, []):
+                if hi == lo:
+                    n = len(set(t2 for t2, a, b in ivs if a < lo < b))
+                    if n + 1 > cs["size"]:
+                        st = U
+        f.add("C02", "cumulative_capacity", ["CumulativeWorker"], st, [cid, worst, cs["size"]])
     # assignments
     for a in sv.assign:
         tid, rid = a["task"], a["resource"]
